@@ -372,6 +372,7 @@ func main() {
 		// items with facts; sigEvents; brackets; numeric captures
 		var itV, evV, brV []string
 		numCaps := map[string]bool{}
+		logCaps := map[string]string{}
 		nEvents, nLines, nMatches := 0, 0, 0
 		for i, it := range gitems {
 			o := res.Outs[i]
@@ -424,6 +425,14 @@ func main() {
 					if ps[fi].Group == "ts_deltasecs" {
 						numCaps[f.TsCap] = true
 					}
+					if ps[fi].Group == "ts_log" {
+						if parts := strings.Split(f.TsCap, " "); len(parts) == 2 && logShape(parts[0], parts[1]) {
+							logCaps[f.TsCap] = "None"
+							if f.DateOK {
+								logCaps[f.TsCap] = "Some " + coqZ(f.DateNs)
+							}
+						}
+					}
 				}
 			}
 			// reception instant: the sigEvent (if any) stamped inside the bracket
@@ -472,6 +481,17 @@ func main() {
 				numV = append(numV, "("+coqS(s)+", Some "+audgen.CoqQFloat(f)+")")
 			}
 		}
+		var logV []string
+		var logSorted []string
+		for s := range logCaps {
+			logSorted = append(logSorted, s)
+		}
+		sort.Strings(logSorted)
+		for _, s := range logSorted {
+			logV = append(logV, "("+coqS(s)+", "+logCaps[s]+")")
+		}
+		stats["ts-log-stamps"] += len(logV)
+		stats["numerals"] += len(numV)
 		// files
 		keys, rows := signalFiles(res.CSV, kinds)
 		var fileV []string
@@ -503,9 +523,9 @@ func main() {
 			intV = append(intV, fs[i].coq())
 			nPoints += len(fs[i].Points) * len(fs[i].Watchers)
 		}
-		itemsV = append(itemsV, fmt.Sprintf("{| k_cfg := %s;\n     k_cast := [%s];\n     k_items := [%s];\n     k_events := [%s];\n     k_brackets := [%s];\n     k_files := [%s];\n     k_status := %d;\n     k_nums := [%s];\n     k_intent := [%s] |}",
+		itemsV = append(itemsV, fmt.Sprintf("{| k_cfg := %s;\n     k_cast := [%s];\n     k_items := [%s];\n     k_events := [%s];\n     k_brackets := [%s];\n     k_files := [%s];\n     k_status := %d;\n     k_nums := [%s];\n     k_epoch := %s;\n     k_tslog := [%s];\n     k_intent := [%s] |}",
 			cfgV, strings.Join(castV, "; "), strings.Join(itV, ";\n       "), strings.Join(evV, "; "), strings.Join(brV, "; "),
-			strings.Join(fileV, ";\n       "), status, strings.Join(numV, "; "), strings.Join(intV, ";\n       ")))
+			strings.Join(fileV, ";\n       "), status, strings.Join(numV, "; "), coqZ(int64(EpochSec)*1000000000), strings.Join(logV, "; "), strings.Join(intV, ";\n       ")))
 		// JSON cannot carry non-finite floats (they only arise from defects)
 		for oi := range res.Outs {
 			for ei := range res.Outs[oi].Events {
